@@ -82,7 +82,7 @@ CHECKS = {
             'Deductive proof over the reals on the same symbolic paths of mj_constraintUpdate_impl (the force Newton and CG return): '
             'friction-loss forces within +-frictionloss, unilateral forces non-negative, elliptic contact forces have non-negative '
             'normal component and lie inside the friction cone; pyramid decode(encode(f)) == f inside the pyramid, decoded normal force '
-            'is the sum of the edges, tangential components within mu times normal (dims 3,4,6).',
+            'is the sum of the edges, tangential components within mu times normal (dims 3,4,6). mj_contactForce: a contact outside the solver reports zero force; for elliptic cones the normal component is the solver force minus the adhesive pull, the friction components are the solver forces and components beyond the contact dimension are zero.',
             'Trusted: as C12. Not decided: PGS/noslip projection loops, qfrc_constraint product, island re-assembly.',
             'symbolic execution of the real bodies, z3/cvc5 NRA'),
     'C30': ('DESIGN.md section 4 / C30',
